@@ -26,12 +26,27 @@ type AScn struct {
 	A     string `json:"program_a"`
 	B     string `json:"program_b"`
 	Bound int    `json:"bound"`
+	// RefuseA k > 0: the kernel refuses the attach made by the k-th control call on socket A (the socket's filter is locked
+	// - SO_LOCK_FILTER - just before it, so the real setsockopt answers EPERM): the installation reports an error
+	RefuseA int `json:"refuse_a,omitempty"`
 }
 
-type schedConn struct{ fd int }
+type schedConn struct {
+	fd     int
+	lockAt int
+	calls  *int
+}
+
+const soLockFilter = 44
 
 func (c schedConn) Control(f func(fd uintptr)) error {
 	vsched.Yield("rawconn.Control")
+	if c.calls != nil {
+		*c.calls++
+		if *c.calls == c.lockAt {
+			syscall.SetsockoptInt(c.fd, syscall.SOL_SOCKET, soLockFilter, 1)
+		}
+	}
 	f(uintptr(c.fd))
 	return nil
 }
@@ -177,11 +192,21 @@ func runAttach(sc *AScn, prefix []int, sig []uint32) (*vsched.Exec, string, stri
 	var ea, eb error
 	x := vsched.Run(vsched.Config{Prefix: prefix, PrefixSig: sig}, nil, func() {
 		done := 0
-		vsched.Go(func() { ea = packets.SetBPFAndDrain(schedConn{pa.rx}, progA); done++ })
-		vsched.Go(func() { eb = packets.SetBPFAndDrain(schedConn{pb.rx}, progB); done++ })
+		callsA := 0
+		vsched.Go(func() { ea = packets.SetBPFAndDrain(schedConn{fd: pa.rx, lockAt: sc.RefuseA, calls: &callsA}, progA); done++ })
+		vsched.Go(func() { eb = packets.SetBPFAndDrain(schedConn{fd: pb.rx}, progB); done++ })
 		vsched.Block(doneW{&done, 2}, -1, "join attaches")
 	})
 	if x.Outcome != vsched.Normal {
+		return x, "", ""
+	}
+	if sc.RefuseA > 0 {
+		if ea == nil {
+			return x, "refused-attach-reported-as-success", fmt.Sprintf("the kernel refused the attach of control call %d on socket A=%s, the installation returned nil", sc.RefuseA, sc.A)
+		}
+		if eb != nil {
+			return x, "attach-error", fmt.Sprint(eb)
+		}
 		return x, "", ""
 	}
 	if ea != nil || eb != nil {
@@ -235,6 +260,11 @@ func attachScns(tier string) []AScn {
 			if i < j {
 				out = append(out, AScn{A: a, B: c, Bound: b})
 			}
+		}
+	}
+	for _, a := range names {
+		for _, k := range []int{1, 2} {
+			out = append(out, AScn{A: a, B: "icmp", Bound: 0, RefuseA: k})
 		}
 	}
 	return out
